@@ -58,11 +58,19 @@ def reader_prog(rng, tree):
     return ops
 
 
-def do_ops(f, ops):
+def do_ops(f, ops, hs=None):
+    """hs: handles opened beforehand (by the set-up of a program), shared with nobody else: ("hopen", name, path), ("hread", name, offset, n)"""
     out = []
+    hs = {} if hs is None else hs
     for op in ops:
         try:
-            if op[0] == "listdir":
+            if op[0] == "hopen":
+                hs[op[1]] = f.openbin(op[2], "r")
+                out.append(None)
+            elif op[0] == "hread":
+                hs[op[1]].seek(op[2])
+                out.append(bytes(hs[op[1]].read(op[3])).hex())
+            elif op[0] == "listdir":
                 out.append(sorted(f.listdir(op[1])))
             elif op[0] == "getinfo":
                 i = f.getinfo(op[1], namespaces=["details"])
@@ -93,10 +101,12 @@ def mount(img, sched=None, lazy=True):
     return f, dev
 
 
-def one_schedule(ctx, img, progs, solo, policy, line_mode, label, rep):
+def one_schedule(ctx, img, progs, solo, policy, line_mode, label, rep, setup=()):
     sc = S.Sched(len(progs), policy)
     f, dev = mount(img, sc)
-    res = S.run_threads(sc, [lambda p=p: do_ops(f, p) for p in progs], pyfat_dir=PYFAT_DIR, line_mode=line_mode, timeout=30)
+    hs = {}
+    do_ops(f, setup, hs)
+    res = S.run_threads(sc, [lambda p=p: do_ops(f, p, hs) for p in progs], pyfat_dir=PYFAT_DIR, line_mode=line_mode, timeout=30)
     ctx.evaluations += 1
     if sc.error:
         if "timeout" in str(sc.error):
@@ -127,7 +137,7 @@ def run(ctx):
         r0 = ImplRun.__new__(ImplRun)
         r0.fs = f0
         tree = ImplRun.walk(r0)
-        for pi in range(ctx.scale(4, 20)):
+        for pi in range(ctx.scale(5, 20)):
             if ctx.time_left() < 15:
                 break
             nthreads = rng.choice([2, 2, 3])
@@ -140,26 +150,33 @@ def run(ctx):
                 # learns about the chain must not depend on how far another handle of the file has got)
                 progs = [[("read", "/dir one/inner/deep file.bin", 1300, 300), ("read", "/dir one/inner/deep file.bin", 0, 1700)],
                          [("read", "/dir one/inner/deep file.bin", 0, 600), ("read", "/dir one/inner/deep file.bin", 100, 50)]]
+            setup = ()
+            if pi == 3:   # a handle that is ALREADY open reads while another thread looks into a directory for the first time: the directory scan and the
+                # handle share the device (C18-m7: sequential scan without re-seeking + read-only handles outside the filesystem lock)
+                setup = (("hopen", "h", "/A.TXT"),)
+                progs = [[("listdir", "/dir one"), ("listdir", "/E"), ("getinfo", "/dir one/f07 with long name.txt")], [("hread", "h", 0, 64), ("hread", "h", 300, 200), ("hread", "h", 10, 5)]]
             solo = []
             for p in progs:
                 f, _ = mount(img)
-                solo.append(do_ops(f, p))
+                hs0 = {}
+                do_ops(f, setup, hs0)
+                solo.append(do_ops(f, p, hs0))
             label = f"fat{ft}-prog{pi}"
-            rep0 = dict(volume=meta, programs=progs)
+            rep0 = dict(volume=meta, programs=progs, setup=list(setup))
             # baseline (no pre-emption) gives the number of yield points of thread 0
-            sc = one_schedule(ctx, img, progs, solo, S.preempt_policy({}), False, label, dict(rep0, preempt={}))
+            sc = one_schedule(ctx, img, progs, solo, S.preempt_policy({}), False, label, dict(rep0, preempt={}), setup=setup)
             n = sc.step
             pts = list(range(1, n + 1))
-            cap = ctx.scale(70 if pi > 2 else 600, 400 if pi > 2 else 3000)     # the two fixed programs: every single pre-emption point
+            cap = ctx.scale(70 if pi > 3 else 600, 400 if pi > 3 else 3000)     # the two fixed programs: every single pre-emption point
             if len(pts) > cap:
                 pts = sorted(rng.sample(pts, cap))
             else:
                 ctx.extra["exhaustive_single_preemption_programs"] = ctx.extra.get("exhaustive_single_preemption_programs", 0) + 1
             for s in pts:
-                one_schedule(ctx, img, progs, solo, S.preempt_policy({s: 0}), False, label, dict(rep0, preempt={s: 0}))
+                one_schedule(ctx, img, progs, solo, S.preempt_policy({s: 0}), False, label, dict(rep0, preempt={s: 0}), setup=setup)
             for _ in range(ctx.scale(15, 150)):
                 a, b = sorted(rng.sample(range(1, max(3, n + 20)), 2))
-                one_schedule(ctx, img, progs, solo, S.preempt_policy({a: 0, b: rng.choice([0, 1])}), False, label, dict(rep0, preempt={a: 0, b: 1}))
+                one_schedule(ctx, img, progs, solo, S.preempt_policy({a: 0, b: rng.choice([0, 1])}), False, label, dict(rep0, preempt={a: 0, b: 1}), setup=setup)
             # one pre-emption at every distinct source line of the in-memory directory tree (FATDirectoryEntry.py: the state readers share and, with
             # lazy loading, mutate) that thread t executes, for each thread t; thorough: at every distinct line of every pyfatfs module (D33)
             # for the two readers of one file (pi == 1): the lines of the handle code and of the chain follower — state reached through the
@@ -168,11 +185,15 @@ def run(ctx):
                 scb = S.Sched(len(progs), S.preempt_policy({}))
                 scb.record_kinds = True
                 fb, _ = mount(img, scb)
-                S.run_threads(scb, [lambda p=p: do_ops(fb, p) for p in progs], pyfat_dir=PYFAT_DIR, line_mode=True, timeout=60)
+                hsb = {}
+                do_ops(fb, setup, hsb)
+                S.run_threads(scb, [lambda p=p: do_ops(fb, p, hsb) for p in progs], pyfat_dir=PYFAT_DIR, line_mode=True, timeout=60)
                 scb2 = S.Sched(len(progs), S.kind_preempt_policy(-1, None, first=len(progs) - 1))
                 scb2.record_kinds = True
                 fb2, _ = mount(img, scb2)
-                S.run_threads(scb2, [lambda p=p: do_ops(fb2, p) for p in progs], pyfat_dir=PYFAT_DIR, line_mode=True, timeout=60)
+                hsb2 = {}
+                do_ops(fb2, setup, hsb2)
+                S.run_threads(scb2, [lambda p=p: do_ops(fb2, p, hsb2) for p in progs], pyfat_dir=PYFAT_DIR, line_mode=True, timeout=60)
                 for t in range(len(progs)):
                     kinds = dict(scb.kinds.get(t, {}))
                     kinds.update({k: 0 for k in scb2.kinds.get(t, {})})
@@ -183,12 +204,12 @@ def run(ctx):
                     if len(lines) > cap_l:
                         lines = rng.sample(lines, cap_l)
                     for k in lines:
-                        one_schedule(ctx, img, progs, solo, S.kind_preempt_policy(t, k, first=t), True, label, dict(rep0, line_preempt=[t, k]))
+                        one_schedule(ctx, img, progs, solo, S.kind_preempt_policy(t, k, first=t), True, label, dict(rep0, line_preempt=[t, k]), setup=setup)
                         ctx.dist["line-preemption"] += 1
             # (and random line-level schedules)
             for k in range(ctx.scale(6, 80)):
                 seed = rng.randrange(1 << 30)
-                one_schedule(ctx, img, progs, solo, S.random_policy(random.Random(seed), p=rng.choice([0.02, 0.1, 0.3])), True, label, dict(rep0, line_level_seed=seed))
+                one_schedule(ctx, img, progs, solo, S.random_policy(random.Random(seed), p=rng.choice([0.02, 0.1, 0.3])), True, label, dict(rep0, line_level_seed=seed), setup=setup)
             ctx.sample(dict(volume=f"FAT{ft}", programs=progs, yield_points=n))
         # lock discipline on the real trace: every device seek is followed by its read before another thread's access (checked by construction of
         # the result comparison) and each solo op's reads lie between acquire and release of the device lock
